@@ -40,10 +40,12 @@ THEOREMS = ["C11_simplify_sound", "C11_simplify_total", "C11_range_sound", "C11_
 def main(ctx):
     ctx.rule = ("exhaustive depth<=1 trees over 13 constants {0,+-1,+-2,3,7,256,768,65536,46341,i32::MIN,i32::MAX} and two symbols; "
                 "depth-2 trees with one leaf operand over {0,1,-1,2,i32::MIN} and two symbols (exhaustive in the thorough tier, "
-                "1/24 sample in quick); Neg placements; seeded random trees of depth<=5 with shared subterms and rewrite-shaped "
+                "1/24 sample in quick); Neg placements; a structural-comparison family (two different expressions over the same operands -- "
+                "all pairs of distinct constructors, swapped/changed operands, x vs -x -- as siblings under Sub/Add-Neg/Max/Min/Broadcast/"
+                "DivCeil/Div, both orders); seeded random trees of depth<=5 with shared subterms and rewrite-shaped "
                 "subtrees (nested Div/DivCeil, common factors, cancelling terms, Max/Min/Broadcast chains), <=3 symbols "
                 "(positive and unconstrained, rarely the same name with both flags); per tree 9-14 assignments (all 0, all 1, "
-                "all equal, -1 for unconstrained symbols, small values, extremes, a missing symbol); release build on "
+                "all equal, pairwise different inexactly dividing values, -1 for unconstrained symbols, small values, extremes, a missing symbol); release build on "
                 "everything, debug build on a third of the enumerated streams; a case is non-trivial when the tree is not a leaf")
     ctx.trusted += ["modelled, not verified: Vec::sort_by (stable insertion sort in the model), Arc, String comparison of "
                     "symbol names (single letters a..e mapped to 0..4)",
@@ -58,13 +60,13 @@ def main(ctx):
 
     # release build: wrapping arithmetic
     bindir = ctx.harness(GROUP, profile="release", bins=["c11"], hooks=False)
-    cases = ctx.gen_exec(bindir, "c11", ctx.n(1500, 12000), inputs=ctx.replay_inputs())
+    cases = ctx.gen_exec(bindir, "c11", ctx.n(1100, 12000), inputs=ctx.replay_inputs())
     ctx.correspond("simplify/range/is_positive/eval (release build)", GROUP, REQ, cases,
                    show="show", agree=agree, fn_name=fn)
 
     # debug build: overflow panics (simplify must not panic; eval panics = EOvf of the model)
     bindir = ctx.harness(GROUP, profile="debug", bins=["c11"], hooks=False)
-    cases = ctx.gen_exec(bindir, "c11", ctx.n(600, 3000), extra_gen=["lite"], inputs=ctx.replay_inputs())
+    cases = ctx.gen_exec(bindir, "c11", ctx.n(450, 3000), extra_gen=["lite"], inputs=ctx.replay_inputs())
     ctx.correspond("simplify/range/is_positive/eval (debug build)", GROUP, REQ, cases,
                    show="show", agree=agree, fn_name=fn)
     # known finding F17b: with overflow-checked evaluation the simplified tree may trap on an
